@@ -67,8 +67,8 @@ type SimReader struct {
 	end   int // first offset not served (cut or len)
 	pos   int
 	calls int
-	k     int // index into plan.Chunks
-	tailN int // 0 = full
+	k     int  // index into plan.Chunks
+	tailN int  // 0 = full
 	tailZ bool // tail policy "zk<N>": every data read is preceded by one (0,nil)
 	zNext bool
 
